@@ -19,8 +19,9 @@ lines, but the atoms are treated as independent).
 `a` TP results, `b` FP results, `c` TN objects, `d` FN objects (a+b+c+d ≤ 2)
 
 Boolean atoms: `i` : TP result `i` has no ground truth, `2+i` : FP result `i` has no ground truth.  Result: the DataFrame
-as the number `Σ_k (digit_k + 1)·64^k` over the row pairs, `digit = g + 5e + 25j`, `g`/`e` = status of the ground-truth /
-estimation row (0 = all-None row, 1 TP, 2 FP, 3 TN, 4 FN), `j` = which item of `tp ++ fp ++ tn ++ fn` the row shows.
+as the number `Σ_k (digit_k + 1)·64^k` over the row pairs IN ASCENDING ORDER OF THEIR CELLS (the pairs are read from the index,
+whatever its labels and order), `digit = g + 5e + 25j`, `g`/`e` = status of the ground-truth / estimation row (0 = all-None row,
+1 TP, 2 FP, 3 TN, 4 FN), `j` = which item of `tp ++ fp ++ tn ++ fn` the row shows.  Code and model are compared by `rowsRel`.
 
 No Mathlib.
 -/
@@ -214,6 +215,101 @@ theorem eval_rowsSkelAux (v : Val) : ∀ l j acc, eval (rowsSkelAux l j acc) v =
 
 theorem eval_rowsSkel (key : Nat) (v : Val) : eval (rowsSkel key) v = rowsAtoms key v :=
   eval_rowsSkelAux v _ 0 0
+
+/-! ### the relation between the code's table and the model's (what the per-run theorem checks for the row shapes)
+
+C19: "one ground-truth/estimate row pair per TP, FP, TN and FN item" — no numbering and no order of the pairs is stated, so
+`harness/dt_c19.py` emits the pairs as a SORTED multiset of cells (`cell = digit + 1`, `Σ_k cell_k · 64^k`; sorted = by item, when
+every item has its one pair — the model's leaves are already in that form).  Which row pair owns the ground truth of an FP result
+carrying one is the open design decision of known finding F11: there — cell `13 + 25 j`, `(g, e) = (FP, FP)` in the model's layout —
+the code may also show the estimate only — cell `11 + 25 j`, `(g, e) = (none, FP)`.  Everywhere else the cells must be equal. -/
+
+def cellRel (c m : Nat) : Bool := c == m || (m % 25 == 13 && c + 2 == m)
+
+/-- cell-wise `cellRel` on the base-64 digits (fuel = number of cells looked at; the tables have at most 2) -/
+def relCode : Nat → Nat → Nat → Bool
+  | 0, c, m => c == m
+  | n + 1, c, m => c == m || (cellRel (c % 64) (m % 64) && relCode n (c / 64) (m / 64))
+
+def rowsRel : Res → Res → Bool
+  | .other c, .other m => relCode 4 c m
+  | _, _ => false
+
+/-- the model's number shows no FP pair holding a ground truth (no input of F11's signature among the items) -/
+def noF11Code : Nat → Nat → Bool
+  | 0, _ => true
+  | n + 1, m => m % 64 % 25 != 13 && noF11Code n (m / 64)
+
+theorem relCode_eq_of_noF11 : ∀ (n c m : Nat), noF11Code n m = true → relCode n c m = true → c = m
+  | 0, c, m, _, h => by simpa [relCode] using h
+  | n + 1, c, m, hn, h => by
+    simp only [noF11Code, Bool.and_eq_true, bne_iff_ne, ne_eq] at hn
+    simp only [relCode, cellRel, Bool.or_eq_true, Bool.and_eq_true, beq_iff_eq] at h
+    rcases h with h | ⟨h1, h2⟩
+    · exact h
+    · have hd := relCode_eq_of_noF11 n _ _ hn.2 h2
+      have hm : c % 64 = m % 64 := by
+        rcases h1 with h1 | ⟨h1, _⟩
+        · exact h1
+        · exact absurd h1 hn.1
+      rw [← Nat.div_add_mod c 64, ← Nat.div_add_mod m 64, hd, hm]
+
+theorem relCode_refl : ∀ (n c : Nat), relCode n c c = true
+  | 0, c => by simp [relCode]
+  | n + 1, c => by simp [relCode]
+
+/-- the named restriction of the exact (equality) corollaries: no FP result of the shape carries a ground truth, i.e. the frame holds no
+input of F11's signature -/
+def noFPwithGT (key : Nat) (v : Val) : Bool := (List.range (shapeOf key).2.1).all fun i => v.b (aNone 1 i)
+
+/-! trees of relational checks: `relTree rel code model` evaluates to `.ret (rel (code's result) (model's result))`, so the
+EXISTING checker `DT.agree` (and its soundness lemma) decides "`rel` holds under every valuation" as `agree (relTree ..) (.leaf (.ret true))` -/
+
+def mapT (f : Res → Res) : DTree → DTree
+  | .leaf r => .leaf (f r)
+  | .bnode a n y => .bnode a (mapT f n) (mapT f y)
+  | .cnode a l e g => .cnode a (mapT f l) (mapT f e) (mapT f g)
+
+def bindT (k : Res → DTree) : DTree → DTree
+  | .leaf r => k r
+  | .bnode a n y => .bnode a (bindT k n) (bindT k y)
+  | .cnode a l e g => .cnode a (bindT k l) (bindT k e) (bindT k g)
+
+theorem eval_mapT (f : Res → Res) (v : Val) : ∀ t, eval (mapT f t) v = f (eval t v)
+  | .leaf _ => rfl
+  | .bnode a n y => by
+    simp only [mapT, eval]
+    cases v.b a
+    · exact eval_mapT f v n
+    · exact eval_mapT f v y
+  | .cnode a l e g => by
+    simp only [mapT, eval]
+    cases v.c a
+    · exact eval_mapT f v l
+    · exact eval_mapT f v e
+    · exact eval_mapT f v g
+
+theorem eval_bindT (k : Res → DTree) (v : Val) : ∀ t, eval (bindT k t) v = eval (k (eval t v)) v
+  | .leaf _ => rfl
+  | .bnode a n y => by
+    simp only [bindT, eval]
+    cases v.b a
+    · exact eval_bindT k v n
+    · exact eval_bindT k v y
+  | .cnode a l e g => by
+    simp only [bindT, eval]
+    cases v.c a
+    · exact eval_bindT k v l
+    · exact eval_bindT k v e
+    · exact eval_bindT k v g
+
+def relTree (rel : Res → Res → Bool) (code model : DTree) : DTree :=
+  bindT (fun c => mapT (fun m => .ret (rel c m)) model) code
+
+theorem eval_relTree (rel : Res → Res → Bool) (code model : DTree) (v : Val) :
+    eval (relTree rel code model) v = .ret (rel (eval code v) (eval model v)) := by
+  unfold relTree
+  rw [eval_bindT, eval_mapT]
 
 /-! ### the MODEL's `addFrame` on index objects -/
 
